@@ -48,6 +48,7 @@ import (
 	"verifharness/fx"
 	"verifharness/kmfx"
 	"verifharness/mc"
+	"verifharness/rpcli"
 )
 
 // corpus is built once by the parent (it involves fresh keys) and loaded by the workers.
@@ -201,6 +202,9 @@ func entryPoints(c *corpus) map[string]func(b []byte) string {
 				outs = append(outs, errClass(err))
 				_, err = exel.Locate(typ, ev.RIMLocator.Data, &exel.LocateOptions{Getter: &getter{c.Endorsement}, UEFIVariableReader: exel.MakeEfiVarFSReader(efiRoot)})
 				outs = append(outs, errClass(err))
+				// a caller that configured neither a getter nor a variable reader
+				_, err = exel.Locate(typ, ev.RIMLocator.Data, &exel.LocateOptions{})
+				outs = append(outs, errClass(err))
 			}
 		}
 		return strings.Join(outs, "|")
@@ -248,13 +252,25 @@ func entryPoints(c *corpus) map[string]func(b []byte) string {
 		"extract.Endorsement(quote)": func(b []byte) string {
 			_, err := extract.Endorsement(&extract.Options{Quote: b, Getter: &getter{c.Endorsement}})
 			_, err2 := extract.Endorsement(&extract.Options{Quote: b, Getter: &getter{c.Endorsement}, ForceFetch: true})
-			return errClass(err) + "|" + errClass(err2)
+			// nothing configured but the quote; and the extract command itself on a machine without a
+			// quote provider (in-process, the file holds the untrusted bytes)
+			_, err3 := extract.Endorsement(&extract.Options{Quote: b})
+			out := errClass(err) + "|" + errClass(err2) + "|" + errClass(err3)
+			if rpcli.Available {
+				res := rpcli.Run(c.Now, &getter{c.Endorsement}, map[string][]byte{"att": b}, "extract", "att", "--out=o", "--eventlog="+elFile+".absent", "--efivarfs="+efiRoot)
+				if res.Panicked != nil {
+					panic(res.Panicked)
+				}
+				out += "|cli:" + errClass(res.Err)
+			}
+			return out
 		},
 		"extract.Endorsement(eventlog)": func(b []byte) string {
 			os.WriteFile(elFile, b, 0o644)
 			_, err := extract.Endorsement(&extract.Options{EventLogLocation: elFile, Getter: &getter{c.Endorsement}, UEFIVariableReader: &varReader{c.Endorsement}, FirmwareManufacturer: extract.GCEFirmwareManufacturer})
 			_, err2 := extract.Endorsement(&extract.Options{EventLogLocation: elFile, Getter: &getter{c.Endorsement}, UEFIVariableReader: exel.MakeEfiVarFSReader(efiRoot)})
-			return errClass(err) + "|" + errClass(err2)
+			_, err3 := extract.Endorsement(&extract.Options{EventLogLocation: elFile}) // neither getter nor variable reader configured
+			return errClass(err) + "|" + errClass(err2) + "|" + errClass(err3)
 		},
 		"CryptoAgileLog.Unmarshal+Locate": func(b []byte) string {
 			el := &eventlog.CryptoAgileLog{}
@@ -273,7 +289,8 @@ func entryPoints(c *corpus) map[string]func(b []byte) string {
 		},
 		"Locate(variable)": func(b []byte) string {
 			_, err := exel.Locate(eventlog.RIMLocationVariable, b, &exel.LocateOptions{UEFIVariableReader: exel.MakeEfiVarFSReader(efiRoot)})
-			return errClass(err)
+			_, err2 := exel.Locate(eventlog.RIMLocationVariable, b, &exel.LocateOptions{})
+			return errClass(err) + "|" + errClass(err2)
 		},
 	}
 }
